@@ -434,3 +434,31 @@ PROPS["C16"] = dict(
         dict(name="e2e", pkg="c16", run="TestE2E", checks=dict(quick=320, thorough=6000), shards=16, timeout=dict(quick=400, thorough=2400), shrinktime="90s"),
     ],
 )
+
+PROPS["C18"] = dict(
+    level="exploration",
+    manifest=dict(
+        text=("A fresh in-process broker node per case; a witness client connected and subscribed before anything hostile happens; 1-3 hostile "
+              "connections write generated byte streams: valid packet sequences (CONNECT, SUBSCRIBE, PUBLISH QoS 0-2, acknowledgements, PINGREQ, "
+              "UNSUBSCRIBE, DISCONNECT, broker-only packets, in any order, before or after CONNECT) with 0-4 structure-aware mutations (type and "
+              "flag nibbles incl. QoS 3, hostile remaining lengths up to a 5th length byte, corrupted 2-byte length prefixes / identifiers, "
+              "shortened bodies, byte flips, duplicated / dropped packets, empty topic lists, identifier 0, garbage, truncation at any offset), "
+              "written in arbitrary chunks round-robin over the connections and optionally closed mid-packet; plus a list of hostile constants. "
+              "Oracle inside the run: the process survives (a panic in any broker goroutine kills the test binary; the driver promotes the running "
+              "case), the witness connection is still open and completes SUBSCRIBE->SUBACK, PINGREQ->PINGRESP, QoS 1 PUBLISH->PUBACK and receives "
+              "its own publish, and a client connecting afterwards does the same. Thorough adds coverage-guided native fuzzing (go test -fuzz) of "
+              "the same target with the oracle inside."),
+        note=_L3_NOTE + " Resource exhaustion (256 MiB bodies announced by a hostile remaining length, slow-loris on the 20 setup workers, subscribers that never read) is outside the byte-stream quantifier and is not judged.",
+        technique="structure-aware property-based fuzzing (rapid) with a liveness oracle; coverage-guided native fuzzing in the thorough tier",
+    ),
+    rule=("a case = 1-3 hostile streams (hex chunks + close flag). Non-trivial = a stream that starts with a CONNECT packet and contains at least one "
+          "mutation. Distinct = distinct case. Native fuzz executions are counted from the fuzzer's own 'execs' figure and added to evaluations."),
+    assumptions=["hostile client ids and topics are disjoint from the witnesses' (a hostile CONNECT with the witness's client id would be a legitimate takeover)",
+                 "liveness is judged at detected quiescence; a slow machine yields 'inconclusive'"],
+    runs=[
+        dict(name="regress", pkg="c18", run="TestRegress", timeout=300),
+        dict(name="constants", pkg="c18", run="TestConstants", timeout=400),
+        dict(name="random", pkg="c18", run="TestRandom", checks=dict(quick=480, thorough=10000), shards=16, timeout=dict(quick=400, thorough=2400), shrinktime="60s"),
+        dict(name="nativefuzz", pkg="c18", fuzz="FuzzClientBytes", run="FuzzClientBytes", fuzztime=dict(thorough=150), tiers=("thorough",)),
+    ],
+)
